@@ -3,6 +3,9 @@
 //! Executes push-based pipelines in parallel using work-stealing schedulers
 //! and per-worker operator instances.
 
+#[cfg(grafeo_verif)]
+use grafeo_common::verif::fake_std as std;
+
 use super::morsel::{DEFAULT_MORSEL_SIZE, compute_morsel_size};
 use super::scheduler::MorselScheduler;
 use super::source::ParallelSource;
